@@ -943,6 +943,19 @@ func (b *boundsAn) sinks(kinds map[string]bool) []boundsSink {
 						}
 					}
 				}
+			case *ssa.Call:
+				// library allocators that take a length
+				if callee := x.Call.StaticCallee(); kinds["make"] && callee != nil && !b.w.fnSet[callee] && len(x.Call.Args) > 0 {
+					if o := callee.Origin(); o != nil {
+						callee = o
+					}
+					switch fullFuncName(callee) {
+					case "slices.Grow", "bytes.Repeat", "strings.Repeat", "(*bytes.Buffer).Grow", "(*strings.Builder).Grow":
+						if o := x.Call.Args[len(x.Call.Args)-1]; b.tv[o] {
+							out = append(out, boundsSink{fn, ins, "make", o, gUpper})
+						}
+					}
+				}
 			case *ssa.BinOp:
 				if kinds["divide"] && (x.Op == token.QUO || x.Op == token.REM) && b.tv[x.Y] && typeBits(x.Type()) > 0 {
 					out = append(out, boundsSink{fn, ins, "divide", x.Y, gNonZero})
